@@ -15,10 +15,7 @@ LEVEL = ('Necessary conditions of crash freedom decided on all paths of the libr
 ASSUMPTIONS = ['exceptions only originate from the standard-library primitives listed in rule X (libCellML has no throw; verified by X4)',
                'finite structures: XML trees, component hierarchies (acyclic by C09.A1) and equation ASTs are finite, so recursion along them terminates']
 
-STO_EXEMPT = {
-    'Analyser::AnalyserImpl::powerValue|std::stod(ast->value())':
-        'value of a <cn> AST node: the analyser runs only behind the validator gate (rule C01.G1) and the validator screens cn text with XmlNode::isBasicReal/isInteger (rule C16.U2)',
-}
+STO_EXEMPT = {}   # (an exemption for AnalyserImpl::powerValue was removed: the e-notation <cn>1<sep/>400</cn> passes validation and made std::stod throw; repaired by cb4ff39)
 AT_EXEMPT = {
     'Logger::error|pFunc()->mIssues.at(pFunc()->mErrors.at(index))': 'positions stored in the level vectors are valid positions of mIssues (invariant kept by addIssue/removeError: rules C15.L2, C15.L5)',
     'Logger::warning|pFunc()->mIssues.at(pFunc()->mWarnings.at(index))': 'positions stored in the level vectors are valid positions of mIssues (rules C15.L2, C15.L5)',
@@ -77,8 +74,8 @@ def run(F, rep):
     # ------------------------------------------------------------------ X: exception channels
     rep.rule('C01.X1', 'every std::sto* call handles out_of_range and is screened by the recogniser of its kind (here or in every caller), or handles both exception types')
     n = exc.sto_rule(F, rep, 'C01.X1', STO_EXEMPT)
-    if n < 5:
-        raise AnalysisBroken('C01.X1: %d sto* sites, 5 confirmed' % n)
+    if n < 4:
+        raise AnalysisBroken('C01.X1: %d sto* sites, 4 confirmed (utilities.cpp x2, units.cpp, validator.cpp)' % n)
     rep.rule('C01.X2', 'every container .at() is a lookup in an exhaustive enum table, or is dominated by a bound/membership test of the same container, or is screened in every caller')
     n = exc.at_rule(F, rep, 'C01.X2', AT_EXEMPT, enum_exempt=('UNSPECIFIED',))
     if n < 60:
@@ -315,4 +312,81 @@ def run(F, rep):
 
     # ------------------------------------------------------------------ N: nullable results
     import nullres
-    nullres.run(F, rep, 'C01.N1', kinds=('rootNode', 'importSource.model'))
+    nullres.run(F, rep, 'C01.N1', kinds=('rootNode', 'importSource.model', 'units(name)', 'variable(name)', 'component(name)'))
+
+    # ------------------------------------------------------------------ V: what the validator checks is what the later stages use
+    rep.rule('C01.V1', 'the text of a <ci>/<cn> token is obtained through the comment-skipping accessors (nonCommentChildNode/-Count, mathmlChild*) both where the validator checks the variable name and where the analyser builds its AST: '
+                       'firstChild()/next() would pick a comment, the check would pass vacuously and the analyser would dereference the variable it cannot find')
+    an = F.fn1('Analyser::AnalyserImpl::analyseNode')
+    n_v = 0
+    for tok in ('ci', 'cn'):
+        sites = []
+        for cnd, node_if in [(role(i, 'cond'), i) for i in an.walk() if i.get('k') == 'If']:
+            if cnd is not None and render(cnd) == 'node->isMathmlElement("%s")' % tok:
+                sites.append(role(node_if, 'then'))
+        if len(sites) != 1:
+            raise AnalysisBroken('analyseNode: branch for <%s> vanished (%d)' % (tok, len(sites)))
+        raw = [c for c in walk(sites[0]) if c.get('k') == 'Call' and c.get('mc') and c.get('fn') in ('firstChild', 'next') and render(receiver(c)).split('->')[0] == 'node' and 'parent()' not in render(c)]
+        good = [c for c in walk(sites[0]) if c.get('k') == 'Call' and c.get('fn') in ('nonCommentChildNode', 'mathmlChildNode')]
+        n_v += 1
+        rep.check(not raw and bool(good), 'C01.V1', 'analyser|' + tok, an.where(sites[0]), 'analyseNode reads the content of <%s> with %s: a leading comment is taken for the content' % (tok, sorted({render(c)[:40] for c in raw}) or 'no comment-skipping accessor'), 'comment-skipping accessor')
+    vci = F.fn1('Validator::ValidatorImpl::validateAndCleanCiNode')
+    raw = [c for c in vci.walk() if c.get('k') == 'Call' and c.get('mc') and c.get('fn') in ('firstChild', 'next')]
+    good = [c for c in vci.walk() if c.get('k') == 'Call' and c.get('fn') in ('nonCommentChildNode', 'mathmlChildNode')]
+    rep.check(not raw and bool(good), 'C01.V1', 'validator|ci name check', vci.where(), 'validateAndCleanCiNode looks for the variable name with %s: for <ci><!-- c -->name</ci> nothing is checked' % sorted({render(c)[:40] for c in raw}), 'comment-skipping accessor')
+    rep.exempt('C01.V1', 'validator|cn text', 'validateAndCleanCnNode uses the first child only to quote the number in a message; the format of the number is checked through nonCommentChildNode in validateMathMLElementsChildrenAndSiblings')
+
+    rep.rule('C01.V2', 'wherever the text of an initial value that is not a number is looked up as a variable name, "is a number" is decided by isCellMLReal - the predicate of the validator rule that guarantees the variable exists; '
+                       'a different predicate (e.g. one that also depends on the range of double) sends valid numbers to the lookup')
+    n_v2 = 0
+    for g in F.funcs.values():
+        if not g.file.endswith(('/generator.cpp', '/analyser.cpp', '/validator.cpp')):
+            continue
+        for i in g.walk():
+            if i.get('k') != 'If':
+                continue
+            cnd = role(i, 'cond')
+            preds = [c for c in walk(cnd) if c.get('k') == 'Call' and not c.get('opc') and not c.get('mc') and (c.get('callee') or '').startswith('libcellml::') and any('initialValue()' in render(a) for a in c.get('c', []))] if cnd is not None else []
+            if not preds:
+                continue
+            # a lookup of that text as a variable name in the other branch / after an early return
+            other = [x for r_ in ('then', 'else') for x in walk(role(i, r_) or {})]
+            rest = [x for x in g.walk() if x.get('l', 0) > i.get('l', 0)]
+            looks = [c for c in other + rest if c.get('k') == 'Call' and c.get('mc') and c.get('fn') == 'variable' and any('initialValue()' in render(a) for a in c['c'][1:])]
+            if not looks:
+                continue
+            n_v2 += 1
+            names = sorted({c.get('fn') for c in preds})
+            rep.check(names == ['isCellMLReal'], 'C01.V2', '%s|%s' % (g.short.split('::')[-1], '+'.join(names)), g.where(i),
+                      '%s decides with %s whether an initial value is a number, and looks the text up as a variable name otherwise; the validator guarantees that variable only for text that is not a CellML real (isCellMLReal)' % (g.short, names), 'isCellMLReal')
+    if n_v2 < 1:
+        raise AnalysisBroken('C01.V2: no number-or-reference decision on an initial value found (generateDoubleOrConstantVariableNameCode confirmed)')
+
+    rep.rule('C01.N2', 'a model that enters the importer\'s library from a parameter of an exported method is known to be non-null there: fetchModel hands library entries to ImportSource::setModel and reports success, after which resolveImports dereferences them')
+    n_n2 = 0
+    for g in F.funcs.values():
+        if not g.file.endswith('/importer.cpp'):
+            continue
+        pp = {p['d']: p['n'] for p in g.params if 'std::shared_ptr<libcellml::Model>' in p['t']}
+        if not pp:
+            continue
+        for c in g.walk():
+            writes = None
+            if c.get('k') == 'Call' and c.get('mc') and c.get('fn') in ('insert', 'emplace', 'insert_or_assign', 'try_emplace') and 'mLibrary' in render(receiver(c)):
+                writes = c
+            if c.get('k') == 'Call' and c.get('opc') == '=' and 'mLibrary' in render(c['c'][0]):
+                writes = c
+            if writes is None:
+                continue
+            used = [x for x in walk(writes) if x.get('k') == 'Ref' and x.get('dk') == 'parm' and x.get('d') in pp]
+            for x in used:
+                n_n2 += 1
+                nn = nonnull_at(g, writes) or set()
+                rep.check(x['n'] in nn, 'C01.N2', '%s|%s' % (g.short, x['n']), g.where(writes), '%s stores its parameter `%s` in the library without a null test: resolveImports later treats the entry as a model' % (g.short, x['n']), 'null-tested before it is stored')
+    if n_n2 < 2:
+        raise AnalysisBroken('C01.N2: library writes from parameters vanished (%d, addModel and replaceModel confirmed)' % n_n2)
+
+    # ------------------------------------------------------------------ clause shared with C07: the library only holds models of files that were read successfully
+    import core
+    import c07
+    c07.run(F, core.Borrowed(rep, only={'C07.L1'}))
